@@ -26,6 +26,8 @@ PROFILES = [
     ('reexport',  4, dict(reexport=0.6, roots=(1, 3), alias=0.3, class_imports=0.2)),
     ('consumers', 2, dict(reexport=0.7, roots=(2, 3), consumer_roots=True)),
     ('relative',  2, dict(reexport=0.3, relative=0.9, subpkg=0.8, roots=(1, 2))),
+    ('classscope', 3, dict(reexport=0.2, alias_pool=True, class_imports=0.5, nested=0.5, max_bases=3, defs=(2, 4), roots=(1, 2),
+                           method_pool=True)),
 ]
 
 
@@ -34,7 +36,7 @@ def world_ok(world: Dict[str, Any]) -> bool:
 
 
 def oracle(world: Dict[str, Any], system: Any) -> List[Any]:
-    return oracles.check_bindings(world, system)
+    return oracles.check_bindings(world, system) + oracles.check_class_attr_paths(world, system)
 
 
 def post(world: Dict[str, Any], res: Dict[str, Any]) -> None:
